@@ -454,9 +454,37 @@ func main() {
 		combos = append(combos, combo{[][]int{{p[0]}, {p[1]}}, 2, true})
 	}
 	if thorough {
+		// three threads: every multiset of 3 calls of a 12-call core of one call per mechanism, and every
+		// other call next to two calls of a four-call sub-core (all 1 771 multisets of the 21-call menu
+		// ran for over half an hour)
+		core3 := map[int]bool{}
+		for i, c := range menu {
+			switch c.name {
+			case "postV ok", "postV invalid", "getE ok", "getE invalid", "postF form", "postO stream", "getH ok", "getH unauthorized", "postM multipart",
+				"postP names for the backtracking pattern", "postP other names, one refused by the backtracking pattern", "getE with the caller's server URL":
+				core3[i] = true
+			}
+		}
 		var triples [][]int
 		multisets(3, 0, nil, &triples)
 		for _, t := range triples {
+			outside := 0
+			for _, i := range t {
+				if !core3[i] {
+					outside++
+				}
+			}
+			// a call outside the core runs next to two calls of a four-call sub-core only
+			small := 0
+			for _, i := range t {
+				switch menu[i].name {
+				case "postV ok", "postV invalid", "getE ok", "postF form":
+					small++
+				}
+			}
+			if outside > 1 || (outside == 1 && small < 2) {
+				continue
+			}
 			combos = append(combos, combo{[][]int{{t[0]}, {t[1]}, {t[2]}}, 2, false})
 		}
 		// two calls per thread (reuse of pooled objects after a completed call): over one call per
